@@ -1283,6 +1283,50 @@ pub fn make_warned_but_parseable(kind: &str, rng: &mut Rng) -> Option<Vec<u8>> {
 ///   wmo_group  MVER + MOGP whose declared size (40) is below the 68 byte header: `chunk_info.size - 68`
 ///              underflows in wow-wmo/src/group_parser.rs (parse_group_file); `wmo info|validate|tree` abort
 ///              with exit status 101.
+/// Files that parse and pass the default validation but violate the rule an optional validate flag enforces:
+///   blp  `--strict`: "dimensions are powers of two" must hold PER DIMENSION -- variant 0: only the width is not a power of
+///        two (6x8), 1: only the height (8x6), 2: both (6x10); Raw3, no mipmaps
+///   wdl  `--version WotLK`: a Legion file (ML* chunks) is not a valid pre-Legion file
+pub fn make_flag_violating(kind: &str, variant: u32, rng: &mut Rng) -> Option<Vec<u8>> {
+    match kind {
+        "blp" => {
+            use wow_blp::convert::{Blp2Format, BlpTarget};
+            let (w, h) = [(6, 8), (8, 6), (6, 10)][variant as usize % 3];
+            let mut local = rng.clone();
+            let _ = rng.next_u64();
+            match guarded(move || encode_blp_spec(BlpSpec { w, h, alpha: true, mips: false, target: BlpTarget::Blp2(Blp2Format::Raw3) }, &mut local).ok()) {
+                Outcome::Done(v) => v,
+                _ => None,
+            }
+        }
+        "wdl" => make_valid("wdl", 3, rng).ok(),
+        _ => None,
+    }
+}
+
+/// The library-side verdict for a validate FLAG: "fail" if the rule the flag switches on is violated, "ok" if not, "n/a".
+pub fn lib_validate_flag(kind: &str, flag: &str, bytes: &[u8], tmpdir: &Path) -> String {
+    match (kind, flag) {
+        ("blp", "strict") => match blp_rule_messages(bytes, tmpdir, true) {
+            Some((e, _)) => if e.is_empty() { "ok".into() } else { "fail".into() },
+            None => "n/a".into(),
+        },
+        ("wdl", "wotlk") => {
+            let r = guarded(|| {
+                wow_wdl::parser::WdlParser::with_version(wow_wdl::version::WdlVersion::Wotlk)
+                    .parse(&mut Cursor::new(bytes))
+                    .and_then(|f| wow_wdl::validation::validate_wdl_file(&f))
+            });
+            match r {
+                Outcome::Done(Ok(())) => "ok".into(),
+                Outcome::Done(Err(_)) => "fail".into(),
+                _ => "n/a".into(),
+            }
+        }
+        _ => "n/a".into(),
+    }
+}
+
 pub fn make_known_crasher(kind: &str) -> Option<Vec<u8>> {
     match kind {
         "wmo_group" => {
